@@ -97,6 +97,18 @@ def sx_same(a, b):
     return all(sx_same(x, y) for x, y in zip(a[1:], b[1:]))
 
 
+def normalize(t):
+    """round every float constant to the double the implementation will hold (1/3 -> Fraction(float(1/3)))."""
+    if t[0] == "c":
+        n = t[1]
+        if n[0] == "f":
+            return ("c", ("f", F(n[1].numerator / n[1].denominator)))
+        return t
+    if t[0] == "v":
+        return t
+    return (t[0],) + tuple(normalize(a) for a in t[1:])
+
+
 def sx_size(t):
     return 1 if t[0] in ("c", "v") else 1 + sum(sx_size(a) for a in t[1:])
 
